@@ -66,8 +66,12 @@ def _fresh(x, rng):
     k = rng.random()
     if k < 0.4 or not isinstance(x, str):
         return x
-    if k < 0.8:
+    if k < 0.7:
         return "".join(list(x))
+    if k < 0.85:
+        from vf import desc as D_
+
+        return D_.RampFlow(x)  # a member of a string enumeration: a `str` equal to the name
     return np.str_(x)
 
 
@@ -179,6 +183,9 @@ def direct_calls(M, rec, rng, reps):
                 d = rng.choice((0.0, rng.uniform(100, 7000), C))
                 w = rng.choice((0.0, 0.0, rng.uniform(0, 600)))
                 r_ = rng.choice((0.0, 1.0, rng.random()))
+                if rng.random() < 0.06:
+                    d = math.inf  # inexhaustible supply, also at a closed ramp
+                    rec.count("direct_calls_with_infinite_demand")
                 br = []
                 R.ramp_flow(d, w, C, r_, p["rho_max"], rho[0], p["rho_crit"], T, eq or "out", br, "ramp:" + str(eq))
                 for b in br:
@@ -304,8 +311,27 @@ def numpy_arguments_to_casadi(M, rec, rng, reps, mon):
             N = rng.choice((1, 2, 3, 5))
             rho = np.array([rho_val(rng, p) for _ in range(N)], float)
             v = np.array([v_val(rng, p) for _ in range(N)], float)
-            prim = ("step_speed", "step_density", "get_flow", "Veq")[it % 4]
-            if prim == "step_speed":
+            prim = ("step_speed", "step_density", "get_flow", "Veq", "get_upstream_flow", "get_upstream_speed", "get_downstream_density", "step_queue")[it % 8]
+            cls_ = "LinksEngine"
+            if prim == "get_upstream_flow":
+                cls_ = "NodesEngine"
+                k_ = rng.choice((1, 1, 2, 3))  # one entering flow as a length-1 array as well
+                m_ = rng.choice((1, 2, 3))
+                betas = np.array([rng.uniform(0.1, 2.0) for _ in range(m_)], float)
+                args = (np.array([rng.uniform(100, 4000) for _ in range(k_)], float), float(betas[0]), betas) + ((rng.uniform(50, 1500),) if it % 16 < 8 else ())
+                if it % 32 >= 16 and len(args) == 4:
+                    args = args[:3] + (np.array([args[3]]),)
+            elif prim == "get_upstream_speed":
+                cls_ = "NodesEngine"
+                k_ = rng.choice((1, 2, 3))
+                args = (np.array([rng.uniform(100, 4000) for _ in range(k_)], float), np.array([rng.uniform(10, 110) for _ in range(k_)], float))
+            elif prim == "get_downstream_density":
+                cls_ = "NodesEngine"
+                args = (np.array([rng.uniform(5, 150) for _ in range(rng.choice((1, 2, 3)))], float),)
+            elif prim == "step_queue":
+                cls_ = "OriginsEngine"
+                args = (np.array([rng.uniform(0, 300)]), np.array([rng.uniform(0, 4000)]), np.array([rng.uniform(0, 4000)]), T)
+            elif prim == "step_speed":
                 vu = np.array([v_val(rng, p) for _ in range(N)], float)
                 rd = np.array([rho_val(rng, p) for _ in range(N)], float)
                 Ve = np.array([R.veq(x, p["v_free"], p["rho_crit"], p["a"]) for x in rho], float)
@@ -322,7 +348,7 @@ def numpy_arguments_to_casadi(M, rec, rng, reps, mon):
                 args = (rho, p["v_free"], p["rho_crit"], p["a"])
             frozen = tuple(a.copy() if isinstance(a, np.ndarray) else a for a in args)
             try:
-                expected = np.asarray(getattr(EN.LinksEngine, prim)(*tuple(a.copy() if isinstance(a, np.ndarray) else a for a in frozen)), float).reshape(-1)
+                expected = np.asarray(getattr(getattr(EN, cls_), prim)(*tuple(a.copy() if isinstance(a, np.ndarray) else a for a in frozen)), float).reshape(-1)
             except Exception:
                 continue
             order = ("casadi", "numpy") if it % 8 < 4 else ("numpy", "casadi")
@@ -331,8 +357,8 @@ def numpy_arguments_to_casadi(M, rec, rng, reps, mon):
             for side in order:
                 E = EC if side == "casadi" else EN
                 try:
-                    r_ = getattr(E.LinksEngine, prim)(*args)
-                    got[side] = np.asarray(cs.DM(r_) if not isinstance(r_, np.ndarray) else r_, float).reshape(-1)
+                    r_ = getattr(getattr(E, cls_), prim)(*args)
+                    got[side] = np.asarray(cs.DM(r_) if not isinstance(r_, (np.ndarray, float)) else r_, float).reshape(-1)
                 except Exception:
                     if side == "casadi":
                         refused = True
@@ -343,6 +369,10 @@ def numpy_arguments_to_casadi(M, rec, rng, reps, mon):
                 continue
             rec.count("numpy_arguments_to_casadi")
             rec.seen("numpy_arguments_primitives", prim)
+            if any(isinstance(a, np.ndarray) and not np.array_equal(a, f_) for a, f_ in zip(args, frozen)):
+                rec.violation(f"{PROP}:{prim}: after both implementations were called with the caller's NumPy arrays, an array no longer holds what was handed over "
+                              "(the next call gets other arguments)", {"primitive": prim, "order": order})
+                continue
             for side in order:
                 g_ = got[side]
                 if g_.shape != expected.shape or not np.allclose(g_, expected, rtol=1e-9, atol=1e-9, equal_nan=True):
@@ -455,7 +485,7 @@ def run(M, rec, tier, seed, k, n):
 
         batched.batched_primitives(M, rec, rng, PROP, 600 if tier == "quick" else 6000, monitors=(mon,))
         direct_calls(M, rec, rng, 12000 if tier == "quick" else 150000)
-        numpy_arguments_to_casadi(M, rec, rng, 400 if tier == "quick" else 4000, mon)
+        numpy_arguments_to_casadi(M, rec, rng, 960 if tier == "quick" else 9600, mon)
         retained_results(M, rec, rng, 480 if tier == "quick" else 4800, mon)
         W.numpy_steps(M, rec, rng, 150 if tier == "quick" else 1500, draws=2)
     finally:
